@@ -216,14 +216,14 @@ Qed.
    stream starting at the requested index (whatever page size, whatever has landed meanwhile), and the answer is not
    empty while the requested index is below the count the node has already reported *)
 Definition wb_pages (pg : nat -> Z -> page_ans) (count : Z) : Prop :=
-  forall k s, 0 <= s -> exists n : nat,
+  forall k s, 0 <= s <= loglen -> exists n : nat,
     pg k s = Page (seg s n) (s + Z.of_nat n) /\ s + Z.of_nat n <= loglen /\ (s < count -> (0 < n)%nat).
 
 Lemma page_exit_ge : forall next count, alph_page_exit next count = (next >=? count).
 Proof. reflexivity. Qed.
 
 Lemma page_loop_wb : forall pg tok count, wb_pages pg count ->
-  forall fuel k cur acc, 0 <= cur -> (Z.to_nat (count - cur) < fuel)%nat ->
+  forall fuel k cur acc, 0 <= cur <= loglen -> (Z.to_nat (count - cur) < fuel)%nat ->
   exists from' j, page_loop pg tok fuel k cur count acc =
                   PBatch from' (acc ++ keep_from tok cur (seg cur (Z.to_nat (from' - cur)))) (k + j)
     /\ count <= from' /\ cur <= from' <= loglen /\ (1 <= j)%nat /\ Z.of_nat j <= Z.max 1 (count - cur).
@@ -244,7 +244,7 @@ Qed.
 
 (* one poll against a well-behaved node: terminates without exhausting the fuel, delivers exactly the kept events of
    stream[from .. from'), reaches at least the polled count, and needs at most max(1, count - from) page requests *)
-Theorem poll_wb : forall pg tok count from, 0 <= from -> wb_pages pg count ->
+Theorem poll_wb : forall pg tok count from, 0 <= from <= loglen -> wb_pages pg count ->
   poll (Some count) pg tok from = PIdle /\ count = from \/
   exists from' nreq, poll (Some count) pg tok from = PBatch from' (keep_from tok from (seg from (Z.to_nat (from' - from)))) nreq
     /\ count <= from' /\ from <= from' <= loglen /\ (1 <= nreq)%nat /\ Z.of_nat nreq <= Z.max 1 (count - from)
@@ -711,4 +711,420 @@ Proof.
   intros c ops from0. assert (G : forall s, poller_inv s -> poller_inv (final c s ops)).
   { induction ops as [|o t IH]; intros s I; cbn [final]; [exact I|]. apply IH. apply step_poller. exact I. }
   apply G. intro H. exfalso. apply H. reflexivity.
+Qed.
+
+(* ================================================================== C09: no loss, no duplicate, no spin, robustness *)
+Definition NoP1 {A} : A -> Prop := fun _ => True.
+Definition NoP2 {A B} : A -> B -> Prop := fun _ _ => True.
+(* the structural invariant alone (no provenance predicates) *)
+Definition Inv0 : wstate -> Prop := Inv NoP1 NoP2 NoP1.
+
+Lemma op_ok_triv : forall c o, op_ok c NoP1 NoP2 NoP1 o.
+Proof.
+  intros c o. destruct o as [cn pg tok| |height now mc hd|r|]; cbn [op_ok]; unfold NoP1, NoP2; auto.
+  - split; [|auto]. intros k s evs next _. apply Forall_forall. auto.
+  - split; [|auto]. intros evs _. apply Forall_forall. auto.
+Qed.
+
+Lemma step_dead : forall c s o, w_dead s = true -> step c s o = (s, out0).
+Proof. intros c s o H. unfold step. rewrite H. reflexivity. Qed.
+
+Lemma final_dead : forall c ops s, w_dead s = true -> w_dead (final c s ops) = true.
+Proof.
+  intros c ops. induction ops as [|o t IH]; intros s H; cbn [final]; [exact H|]. rewrite step_dead by exact H. cbn [fst]. apply IH. exact H.
+Qed.
+
+Lemma keep_from_ext : forall tok T evs idx, (forall i, tok i = T i) -> keep_from tok idx evs = keep_from T idx evs.
+Proof.
+  intros tok T evs. induction evs as [|e t IH]; intros idx H; cbn [keep_from]; [reflexivity|]. rewrite H, IH by exact H. reflexivity.
+Qed.
+
+Lemma process_blocks_total : forall mn height now mc hd P, (forall b, mc b <> None) -> (forall b, hd b <> None) ->
+  exists P' conf, process_blocks mn height now mc hd P = Some (P', conf).
+Proof.
+  intros mn height now mc hd P Hm Hh. induction P as [|b t (P' & conf & IH)]; cbn [process_blocks]; [eauto|].
+  unfold process_block. destruct (mc (pb_hash b)) as [canon|] eqn:M; [|exfalso; eapply Hm; exact M].
+  destruct (pb_hdr b) as [h|].
+  - rewrite IH. eauto.
+  - destruct (hd (pb_hash b)) as [h|] eqn:Hd; [|exfalso; eapply Hh; exact Hd]. rewrite IH. eauto.
+Qed.
+
+Section Partition.
+Variable c : cfg.
+Variable log : list cevent.
+Variable T : Z -> mc_ans.       (* the node's metadata answer for the event at each stream index *)
+
+(* a step without node API error against a node with well-behaved paging *)
+Definition fine (o : op) : Prop :=
+  match o with
+  | OPoll cn pg tok => exists count, cn = Some count /\ wb_pages log pg count /\ (forall i, tok i = T i)
+  | OTick _ _ mc hd => (forall b, mc b <> None) /\ (forall b, hd b <> None)
+  | OHeightErr => False
+  | _ => True
+  end.
+
+Definition poll_bound (s : wstate) (o : op) : Prop :=
+  match o with
+  | OPoll (Some count) _ _ =>
+      w_inflight s = None ->
+      count <= w_from (fst (step c s o)) /\ Z.of_nat (o_nreq (snd (step c s o))) <= Z.max 0 (count - w_from s) + 1
+  | _ => True
+  end.
+
+Lemma seg_zero : forall s, seg log s 0 = [].
+Proof. reflexivity. Qed.
+
+Theorem step_fine : forall s o, Inv0 s -> w_dead s = false -> 0 <= w_from s <= loglen log -> fine o ->
+  let s' := fst (step c s o) in let x := snd (step c s o) in
+  w_dead s' = false /\ o_flag x = FNone /\ w_from s <= w_from s' <= loglen log /\
+  o_batch x = keep_from T (w_from s) (seg log (w_from s) (Z.to_nat (w_from s' - w_from s))) /\ poll_bound s o.
+Proof.
+  intros s o HI D Hf Hfine. pose proof HI as [I1 I2].
+  assert (Same : forall w, w_from w = w_from s -> w_dead w = false ->
+            w_dead w = false /\ FNone = FNone /\ w_from s <= w_from w <= loglen log /\
+            @nil uevent = keep_from T (w_from s) (seg log (w_from s) (Z.to_nat (w_from w - w_from s)))).
+  { intros w E Dw. rewrite E, Z.sub_diag. cbn [Z.to_nat]. rewrite seg_zero. cbn [keep_from]. repeat apply conj; auto; lia. }
+  cbv zeta. unfold poll_bound, step. rewrite D.
+  destruct o as [cn pg tok| |height now mc hd|r|]; cbn [fine] in Hfine.
+  - destruct Hfine as (count & -> & WB & Ht).
+    destruct (w_inflight s) as [l0|] eqn:F; cbn [fst snd out0 o_flag o_batch].
+    + destruct (Same s eq_refl D) as (S1 & S2 & S3 & S4). repeat apply conj; auto; try lia. intro Hc; discriminate Hc.
+    + destruct (poll_wb log pg tok count (w_from s) Hf WB) as [[P E]|(from' & nreq & P & B1 & B2 & B3 & B4 & B5)]; rewrite P.
+      * cbn [fst snd out0 o_flag o_batch o_nreq]. destruct (Same s eq_refl D) as (S1 & S2 & S3 & S4). repeat apply conj; auto; try lia; try (intros _; cbn [o_nreq out0 Z.of_nat]; lia).
+      * cbn [fst snd o_flag o_batch o_nreq w_from w_dead]. rewrite (keep_from_ext tok T) by exact Ht. repeat apply conj; auto; try lia; try (intros _; split; lia).
+  - destruct (w_inflight s) as [l|] eqn:F; cbn [fst snd out0 o_flag o_batch].
+    + destruct (Same {| w_from := w_from s; w_inflight := None; w_pending := add_batch (w_pending s) l;
+                        w_enabled := if is_nil l then w_enabled s else true; w_dead := false |} eq_refl eq_refl) as (S1 & S2 & S3 & S4).
+      repeat apply conj; auto; try lia.
+    + destruct (Same s eq_refl D) as (S1 & S2 & S3 & S4). repeat apply conj; auto; try lia.
+  - destruct Hfine as [Hm Hh]. destruct (process_blocks_total (c_mainnet c) height now mc hd (w_pending s) Hm Hh) as (P' & conf & R). rewrite R.
+    destruct (process_blocks_good c NoP1 NoP2 NoP1 _ _ _ _ _ _ _ (fun _ _ _ => I) I2 R) as [G1 G2].
+    pose proof (handle_confirmed_noerr c NoP1 NoP2 NoP1 _ _ _ _ G2) as E.
+    destruct (handle_confirmed (c_bridge c) conf) as [f err]. cbn [snd] in E. subst err. cbn [fst snd o_flag o_batch].
+    destruct (Same {| w_from := w_from s; w_inflight := w_inflight s; w_pending := P';
+                      w_enabled := if is_nil P' then false else w_enabled s; w_dead := false |} eq_refl eq_refl) as (S1 & S2 & S3 & S4).
+    repeat apply conj; auto; try lia.
+  - pose proof (reobserve_flag c r) as Fl. destruct (reobserve c r) as [f fl]. cbn [snd] in Fl. subst fl. cbn [fst snd o_flag o_batch].
+    destruct (Same s eq_refl D) as (S1 & S2 & S3 & S4). repeat apply conj; auto; try lia.
+  - destruct Hfine.
+Qed.
+
+Fixpoint all_quiet (s : wstate) (ops : list op) : Prop :=
+  match ops with
+  | [] => True
+  | o :: t => o_flag (snd (step c s o)) = FNone /\ poll_bound s o /\ all_quiet (fst (step c s o)) t
+  end.
+
+(* over every history of error-free steps: the watcher never terminates, never spins, never panics, every poll stays
+   within its request bound and reaches the polled count, and the batches delivered are - in order, each exactly once -
+   the kept events of stream[from0 .. from_final) *)
+Theorem partition_all_histories : forall ops s, Inv0 s -> w_dead s = false -> 0 <= w_from s <= loglen log -> Forall fine ops ->
+  w_dead (final c s ops) = false /\ all_quiet s ops /\ w_from s <= w_from (final c s ops) <= loglen log /\
+  batches c s ops = keep_from T (w_from s) (seg log (w_from s) (Z.to_nat (w_from (final c s ops) - w_from s))).
+Proof.
+  induction ops as [|o t IH]; intros s HI D Hf Hfine; cbn [final all_quiet batches].
+  - rewrite Z.sub_diag. cbn [Z.to_nat]. rewrite seg_zero. cbn [keep_from]. repeat apply conj; auto; lia.
+  - inversion Hfine as [|o' t' Ho Ht]; subst.
+    destruct (step_fine s o HI D Hf Ho) as (S1 & S2 & S3 & S4 & S5).
+    pose proof (proj1 (step_safe c NoP1 NoP2 NoP1 s o HI (op_ok_triv c o))) as HI'.
+    destruct (IH (fst (step c s o)) HI' S1 ltac:(lia) Ht) as (J1 & J2 & J3 & J4).
+    repeat apply conj; auto; try lia.
+    rewrite S4, J4.
+    set (f0 := w_from s) in *. set (f1 := w_from (fst (step c s o))) in *. set (f2 := w_from (final c (fst (step c s o)) t)) in *.
+    replace (Z.to_nat (f2 - f0)) with (Z.to_nat (f1 - f0) + Z.to_nat (f2 - f1))%nat by lia.
+    rewrite seg_app by lia. rewrite keep_from_app. rewrite seg_length by (unfold loglen in *; lia).
+    replace (f0 + Z.of_nat (Z.to_nat (f1 - f0))) with f1 by lia. reflexivity.
+Qed.
+
+(* fromIndex never moves backwards, so it ends at or above every count it has polled *)
+Lemma final_from_mono : forall ops s, Inv0 s -> w_dead s = false -> 0 <= w_from s <= loglen log -> Forall fine ops -> w_from s <= w_from (final c s ops).
+Proof. intros ops s HI D Hf Hfine. destruct (partition_all_histories ops s HI D Hf Hfine) as (_ & _ & H & _). lia. Qed.
+
+End Partition.
+
+(* the control flow of a poll (fromIndex afterwards, number of page requests, outcome) does not depend on the contents of
+   the events at all - only on the nextStart values the node reports *)
+Definition pnext (a : page_ans) : option Z := match a with PageErr => None | Page _ n => Some n end.
+Definition pshape (r : poll_res) : poll_res :=
+  match r with PBatch f _ n => PBatch f [] n | x => x end.
+
+Lemma page_loop_shape : forall pg1 pg2 tok1 tok2 count, (forall k s, pnext (pg1 k s) = pnext (pg2 k s)) ->
+  forall fuel k cur acc1 acc2,
+  pshape (page_loop pg1 tok1 fuel k cur count acc1) = pshape (page_loop pg2 tok2 fuel k cur count acc2).
+Proof.
+  intros pg1 pg2 tok1 tok2 count Hn. induction fuel as [|f IH]; intros k cur acc1 acc2; cbn [page_loop]; [reflexivity|].
+  specialize (Hn k cur). destruct (pg1 k cur) as [|e1 n1]; destruct (pg2 k cur) as [|e2 n2]; cbn [pnext] in Hn; try discriminate; [reflexivity|].
+  injection Hn as <-. rewrite !handle_unconfirmed_spec. destruct (alph_page_exit n1 count); [reflexivity|apply IH].
+Qed.
+
+Theorem poll_shape_independent_of_contents : forall pg1 pg2 tok1 tok2 cn from,
+  (forall k s, pnext (pg1 k s) = pnext (pg2 k s)) -> pshape (poll cn pg1 tok1 from) = pshape (poll cn pg2 tok2 from).
+Proof.
+  intros pg1 pg2 tok1 tok2 cn from Hn. unfold poll. destruct cn as [count|]; [|reflexivity].
+  destruct (count =? from); [reflexivity|]. apply page_loop_shape. exact Hn.
+Qed.
+
+(* a poll ends in an error only because of a node API error, and never panics, whatever the events contain *)
+Lemma page_loop_outcomes : forall pg tok count fuel k cur acc,
+  match page_loop pg tok fuel k cur count acc with
+  | PFatal => exists k' s, pg k' s = PageErr
+  | PPanic => False
+  | _ => True
+  end.
+Proof.
+  intros pg tok count. induction fuel as [|f IH]; intros k cur acc; cbn [page_loop]; [exact I|].
+  destruct (pg k cur) as [|evs next] eqn:P; [eauto|]. rewrite handle_unconfirmed_spec.
+  destruct (alph_page_exit next count); [exact I|apply IH].
+Qed.
+
+Theorem poll_fatal_only_by_api_error : forall cn pg tok from,
+  match poll cn pg tok from with
+  | PFatal => cn = None \/ exists k s, pg k s = PageErr
+  | PPanic => False
+  | _ => True
+  end.
+Proof.
+  intros cn pg tok from. unfold poll. destruct cn as [count|]; [|left; reflexivity].
+  destruct (count =? from); [exact I|].
+  pose proof (page_loop_outcomes pg tok count (poll_fuel from count) 0 from []) as H.
+  destruct (page_loop pg tok (poll_fuel from count) 0 from count []); auto.
+Qed.
+
+(* ================================================================== C09: a pending event is forwarded at the first tick at which it is final *)
+Definition pending_in (P : list pblock) (blk : Z) (u : uevent) : Prop :=
+  exists b, In b P /\ pb_hash b = blk /\ In u (pb_evs b).
+
+Lemma add_event_keeps : forall P u' blk u, pending_in P blk u -> pending_in (add_event P u') blk u.
+Proof.
+  intros P u' blk u. induction P as [|b t IH]; intros (b0 & Hb & Hh & Hu); [destruct Hb|]. cbn [add_event].
+  destruct (pb_hash b =? e_block (u_ev u')) eqn:E.
+  - destruct Hb as [<-|Hb].
+    + eexists. split; [left; reflexivity|]. cbn [pb_hash pb_evs]. split; [exact Hh|apply in_or_app; left; exact Hu].
+    + exists b0. split; [right; exact Hb|auto].
+  - destruct Hb as [<-|Hb].
+    + exists b. split; [left; reflexivity|auto].
+    + destruct IH as (b1 & H1 & H2 & H3); [exists b0; auto|]. exists b1. split; [right; exact H1|auto].
+Qed.
+
+Lemma add_batch_keeps : forall l P blk u, pending_in P blk u -> pending_in (add_batch P l) blk u.
+Proof.
+  unfold add_batch. induction l as [|u' l IH]; intros P blk u H; cbn [fold_left]; [exact H|]. apply IH. apply add_event_keeps. exact H.
+Qed.
+
+Lemma handle_confirmed_in : forall br conf u h,
+  Forall (fun x => e_index (u_ev (fst x)) = alph_wm_event_index) conf -> In (u, h) conf -> m_sender (u_msg u) = br ->
+  In (mkfwd u h) (fst (handle_confirmed br conf)).
+Proof.
+  intros br conf u h. induction conf as [|[u0 h0] t IH]; intros Hi Hin Hs; [destruct Hin|]. cbn [handle_confirmed].
+  inversion Hi as [|x t' Hx Ht]; subst x t'. cbn [fst] in Hx. rewrite Hx, Z.eqb_refl.
+  destruct (handle_confirmed br t) as [f e] eqn:R. cbn [fst] in IH.
+  destruct Hin as [Heq|Hin].
+  - injection Heq as -> ->. rewrite Hs, Z.eqb_refl. cbn [fst]. left. reflexivity.
+  - specialize (IH Ht Hin Hs). destruct (m_sender (u_msg u0) =? br); cbn [fst]; [right; exact IH|exact IH].
+Qed.
+
+Section TickLiveness.
+Variable c : cfg.
+Variable H : Z -> header.     (* the header of every block: the node's header answers are consistent with it *)
+Definition HPh : Z -> header -> Prop := fun b h => h = H b.
+Definition InvH : wstate -> Prop := Inv NoP1 HPh NoP1.
+Definition okH (o : op) : Prop := match o with OTick _ _ _ hd => forall b h, hd b = Some h -> h = H b | _ => True end.
+
+Lemma step_InvH : forall s o, InvH s -> okH o -> InvH (fst (step c s o)).
+Proof.
+  intros s o HI Hok. destruct o as [cn pg tok| |height now mc hd|r|].
+  - apply (step_safe c NoP1 HPh NoP1 s _ HI). cbn [op_ok]. split; [|unfold NoP1; auto]. intros k s0 evs next _. apply Forall_forall. unfold NoP1. auto.
+  - apply (step_safe c NoP1 HPh NoP1 s _ HI). exact I.
+  - apply (step_safe c NoP1 HPh NoP1 s _ HI). exact Hok.
+  - unfold step. destruct (w_dead s); [exact HI|]. destruct (reobserve c r) as [f fl]. destruct fl; exact HI.
+  - apply (step_safe c NoP1 HPh NoP1 s _ HI). exact I.
+Qed.
+
+Lemma process_block_live : forall height now mc hd b k conf,
+  (forall b h, hd b = Some h -> h = H b) -> bgood NoP1 HPh NoP1 b ->
+  process_block (c_mainnet c) height now mc hd b = BOk k conf ->
+  forall u, In u (pb_evs b) ->
+  (confirmed (c_mainnet c) (u_msg u) (H (pb_hash b)) now height = false ->
+     exists b', k = Some b' /\ pb_hash b' = pb_hash b /\ In u (pb_evs b')) /\
+  (confirmed (c_mainnet c) (u_msg u) (H (pb_hash b)) now height = true -> mc (pb_hash b) = Some true -> In (u, H (pb_hash b)) conf).
+Proof.
+  intros height now mc hd b k conf Hhd [Hb1 Hb2] R u Hu. unfold process_block in R.
+  destruct (mc (pb_hash b)) as [canon|] eqn:M; [|discriminate].
+  destruct (match pb_hdr b with Some h => Some h | None => hd (pb_hash b) end) as [h|] eqn:Hh; [|discriminate].
+  assert (Eh : h = H (pb_hash b)).
+  { destruct (pb_hdr b) as [h'|] eqn:P; [injection Hh as <-; apply Hb2; reflexivity|apply Hhd; exact Hh]. }
+  subst h. injection R as <- <-. split.
+  - intro Hc. assert (Hin : In u (filter (fun u0 => negb (confirmed (c_mainnet c) (u_msg u0) (H (pb_hash b)) now height)) (pb_evs b))).
+    { apply filter_In. split; [exact Hu|rewrite Hc; reflexivity]. }
+    destruct (filter (fun u0 => negb (confirmed (c_mainnet c) (u_msg u0) (H (pb_hash b)) now height)) (pb_evs b)) as [|x r] eqn:F; [destruct Hin|].
+    eexists. split; [reflexivity|]. cbn [pb_hash pb_evs]. split; [reflexivity|exact Hin].
+  - intros Hc Hm. injection Hm as ->. apply in_map_iff. exists u. split; [reflexivity|]. apply filter_In. auto.
+Qed.
+
+Lemma process_blocks_live : forall height now mc hd P P' conf,
+  (forall b h, hd b = Some h -> h = H b) -> Forall (bgood NoP1 HPh NoP1) P ->
+  process_blocks (c_mainnet c) height now mc hd P = Some (P', conf) ->
+  forall blk u, pending_in P blk u ->
+  (confirmed (c_mainnet c) (u_msg u) (H blk) now height = false -> pending_in P' blk u) /\
+  (confirmed (c_mainnet c) (u_msg u) (H blk) now height = true -> mc blk = Some true -> In (u, H blk) conf).
+Proof.
+  intros height now mc hd P. induction P as [|b t IH]; intros P' conf Hhd HP R blk u (b0 & Hb & Hh & Hu); [destruct Hb|].
+  cbn [process_blocks] in R. inversion HP as [|b' t' Hbg Htg]; subst.
+  destruct (process_block (c_mainnet c) height now mc hd b) as [|k cf] eqn:B; [discriminate|].
+  destruct (process_blocks (c_mainnet c) height now mc hd t) as [[q cf']|] eqn:R'; [|discriminate].
+  injection R as <- <-. destruct Hb as [<-|Hb].
+  - destruct (process_block_live _ _ _ _ _ _ _ Hhd Hbg B u Hu) as [L1 L2]. split.
+    + intro Hc. destruct (L1 Hc) as (b' & -> & E1 & E2). exists b'. split; [left; reflexivity|auto].
+    + intros Hc Hm. apply in_or_app. left. apply L2; assumption.
+  - destruct (IH _ _ Hhd Htg eq_refl (pb_hash b0) u) as [L1 L2]; [exists b0; auto|]. split.
+    + intro Hc. destruct (L1 Hc) as (b' & E0 & E1 & E2). exists b'. split; [destruct k; [right|]; exact E0|auto].
+    + intros Hc Hm. apply in_or_app. right. apply L2; assumption.
+Qed.
+
+Lemma step_keeps_pending : forall s o blk u, InvH s -> okH o -> w_dead (fst (step c s o)) = false ->
+  pending_in (w_pending s) blk u ->
+  (forall height now mc hd, o = OTick height now mc hd -> confirmed (c_mainnet c) (u_msg u) (H blk) now height = false) ->
+  pending_in (w_pending (fst (step c s o))) blk u.
+Proof.
+  intros s o blk u HI Hok Dd Hp Hnc. pose proof HI as [I1 I2]. revert Dd. unfold step. destruct (w_dead s); [intros _; exact Hp|].
+  destruct o as [cn pg tok| |height now mc hd|r|].
+  - destruct (w_inflight s); [intros _; exact Hp|]. destruct (poll cn pg tok (w_from s)); intros _; exact Hp.
+  - destruct (w_inflight s) as [l|]; [|intros _; exact Hp]. intros _. cbn [fst w_pending]. apply add_batch_keeps. exact Hp.
+  - destruct (process_blocks (c_mainnet c) height now mc hd (w_pending s)) as [[P' conf]|] eqn:R; [|cbn [fst die w_dead]; discriminate].
+    destruct (process_blocks_live _ _ _ _ _ _ _ Hok I2 R blk u Hp) as [L1 _].
+    destruct (handle_confirmed (c_bridge c) conf) as [f err]. intros _. cbn [fst w_pending]. apply L1. eapply Hnc. reflexivity.
+  - destruct (reobserve c r) as [f fl]. destruct fl; intros _; exact Hp.
+  - cbn [fst die w_dead]. discriminate.
+Qed.
+
+Lemma step_forwards : forall s height now mc hd blk u, InvH s -> okH (OTick height now mc hd) ->
+  w_dead (fst (step c s (OTick height now mc hd))) = false ->
+  pending_in (w_pending s) blk u -> m_sender (u_msg u) = c_bridge c ->
+  confirmed (c_mainnet c) (u_msg u) (H blk) now height = true -> mc blk = Some true ->
+  In (mkfwd u (H blk)) (o_fwd (snd (step c s (OTick height now mc hd)))).
+Proof.
+  intros s height now mc hd blk u HI Hok Dd Hp Hs Hc Hm. pose proof HI as [I1 I2]. revert Dd. unfold step.
+  destruct (w_dead s) eqn:D; [cbn [fst]; congruence|].
+  destruct (process_blocks (c_mainnet c) height now mc hd (w_pending s)) as [[P' conf]|] eqn:R; [|cbn [fst die w_dead]; discriminate].
+  destruct (process_blocks_live _ _ _ _ _ _ _ Hok I2 R blk u Hp) as [_ L2].
+  destruct (process_blocks_good c NoP1 HPh NoP1 _ _ _ _ _ _ _ Hok I2 R) as [G1 G2].
+  assert (Hidx : Forall (fun x => e_index (u_ev (fst x)) = alph_wm_event_index) conf).
+  { eapply Forall_impl; [|exact G2]. intros x ((_ & G & _) & _). apply to_unconfirmed_some in G. tauto. }
+  pose proof (handle_confirmed_in (c_bridge c) conf u (H blk) Hidx (L2 Hc Hm) Hs) as Hin.
+  destruct (handle_confirmed (c_bridge c) conf) as [f err]. intros _. cbn [fst snd o_fwd] in *. exact Hin.
+Qed.
+
+(* the first tick at which the event is final forwards it, whatever else happened before *)
+Theorem pending_forwarded_when_final : forall pre s height now mc hd blk u,
+  InvH s -> Forall okH pre -> okH (OTick height now mc hd) ->
+  w_dead (fst (step c (final c s pre) (OTick height now mc hd))) = false ->
+  pending_in (w_pending s) blk u -> m_sender (u_msg u) = c_bridge c ->
+  (forall h' n' mc' hd', In (OTick h' n' mc' hd') pre -> confirmed (c_mainnet c) (u_msg u) (H blk) n' h' = false) ->
+  confirmed (c_mainnet c) (u_msg u) (H blk) now height = true -> mc blk = Some true ->
+  In (mkfwd u (H blk)) (o_fwd (snd (step c (final c s pre) (OTick height now mc hd)))).
+Proof.
+  induction pre as [|o t IH]; intros s height now mc hd blk u HI Hpre Hok Dd Hp Hs Hnc Hc Hm; cbn [final] in *.
+  - apply step_forwards; assumption.
+  - inversion Hpre as [|o' t' Ho Ht]; subst.
+    assert (D1 : w_dead (fst (step c s o)) = false).
+    { destruct (w_dead (fst (step c s o))) eqn:D1; [|reflexivity]. exfalso.
+      pose proof (final_dead c t _ D1) as D2. rewrite step_dead in Dd by exact D2. cbn [fst] in Dd. congruence. }
+    apply IH; try assumption.
+    + apply step_InvH; assumption.
+    + apply step_keeps_pending; try assumption. intros h' n' mc' hd' E. eapply Hnc. left. exact E.
+    + intros h' n' mc' hd' Hin. eapply Hnc. right. exact Hin.
+Qed.
+
+End TickLiveness.
+
+(* after a height tick nothing that is confirmed remains pending: confirmed events were forwarded or - orphaned block,
+   foreign sender - dropped for good *)
+Lemma process_block_leaves : forall mn height now mc hd b k conf, process_block mn height now mc hd b = BOk k conf ->
+  forall b', k = Some b' -> exists h, pb_hdr b' = Some h /\ Forall (fun u => confirmed mn (u_msg u) h now height = false) (pb_evs b').
+Proof.
+  intros mn height now mc hd b k conf R b' Hk. unfold process_block in R.
+  destruct (mc (pb_hash b)) as [canon|]; [|discriminate].
+  destruct (match pb_hdr b with Some h => Some h | None => hd (pb_hash b) end) as [h|]; [|discriminate].
+  injection R as <- <-. destruct (filter _ (pb_evs b)) as [|x r] eqn:F; [discriminate|]. injection Hk as <-.
+  exists h. cbn [pb_hdr pb_evs]. split; [reflexivity|]. rewrite <- F. apply Forall_forall. intros u Hu.
+  apply filter_In in Hu as [_ Hu]. apply negb_true_iff in Hu. exact Hu.
+Qed.
+
+Lemma process_blocks_leaves : forall mn height now mc hd P P' conf, process_blocks mn height now mc hd P = Some (P', conf) ->
+  Forall (fun b' => exists h, pb_hdr b' = Some h /\ Forall (fun u => confirmed mn (u_msg u) h now height = false) (pb_evs b')) P'.
+Proof.
+  intros mn height now mc hd P. induction P as [|b t IH]; intros P' conf R; cbn [process_blocks] in R.
+  - injection R as <- <-. constructor.
+  - destruct (process_block mn height now mc hd b) as [|k cf] eqn:B; [discriminate|].
+    destruct (process_blocks mn height now mc hd t) as [[q cf']|] eqn:R'; [|discriminate].
+    injection R as <- <-. specialize (IH _ _ eq_refl). destruct k as [b'|]; [|exact IH].
+    constructor; [eapply process_block_leaves; [exact B|reflexivity]|exact IH].
+Qed.
+
+Theorem tick_leaves_only_unconfirmed : forall c s height now mc hd,
+  w_dead (fst (step c s (OTick height now mc hd))) = false ->
+  Forall (fun b' => exists h, pb_hdr b' = Some h /\ Forall (fun u => confirmed (c_mainnet c) (u_msg u) h now height = false) (pb_evs b'))
+         (w_pending (fst (step c s (OTick height now mc hd)))) \/ w_dead s = true.
+Proof.
+  intros c s height now mc hd. unfold step. destruct (w_dead s); [right; reflexivity|]. left.
+  destruct (process_blocks (c_mainnet c) height now mc hd (w_pending s)) as [[P' conf]|] eqn:R; [|cbn [fst die w_dead] in *; discriminate].
+  pose proof (process_blocks_leaves _ _ _ _ _ _ _ _ R) as L. destruct (handle_confirmed (c_bridge c) conf) as [f err]. cbn [fst w_pending]. exact L.
+Qed.
+
+(* ================================================================== reading the justification *)
+(* what GetTokenInfo accepts: the native token, or three succeeded calls with exactly one well-typed return each *)
+Lemma get_token_info_spec : forall id a t, get_token_info id a = TiOk t ->
+  (id = alph_native_id /\ t = {| ti_id := alph_native_id; ti_dec := alph_native_decimals; ti_sym := alph_native_sym; ti_name := alph_native_name |}) \/
+  (exists vs vn vd s n d, a = McRes [COk [vs]; COk [vn]; COk [vd]] /\ to_bytevec vs = Some s /\ to_bytevec vn = Some n /\ to_uint8 vd = Some d /\
+                          t = {| ti_id := id; ti_dec := d; ti_sym := s; ti_name := n |}).
+Proof.
+  intros id a t. unfold get_token_info. destruct (id =? alph_native_id) eqn:E.
+  - intro H. injection H as <-. left. apply Z.eqb_eq in E. auto.
+  - destruct a as [|rs]; [discriminate|]. destruct rs as [|r0 [|r1 [|r2 [|r3 rest]]]]; cbn [length Nat.eqb negb]; try discriminate.
+    rewrite tokinfo_tests_own. unfold shape_test. cbn [nth].
+    destruct r0 as [|[|v0 [|w0 t0]]]; cbn [succeeded negb]; try discriminate.
+    destruct r1 as [|[|v1 [|w1 t1]]]; cbn [succeeded negb]; try discriminate.
+    destruct r2 as [|[|v2 [|w2 t2]]]; cbn [succeeded negb]; try discriminate.
+    destruct (to_bytevec v0) as [s|] eqn:B0; [|discriminate]. destruct (to_bytevec v1) as [n|] eqn:B1; [|discriminate].
+    destruct (to_uint8 v2) as [d|] eqn:B2; [|discriminate]. intro H. injection H as <-. right. exists v0, v1, v2, s, n, d. auto.
+Qed.
+
+Lemma justified_tick_meaning : forall c EP HP AP height now mc hd f,
+  justified c EP HP AP (OTick height now mc hd) f -> sane_hdr (f_hdr f) (m_cl (f_msg f)) ->
+  EP (f_ev f) /\ HP (e_block (f_ev f)) (f_hdr f) /\ m_sender (f_msg f) = c_bridge c /\
+  mc (e_block (f_ev f)) = Some true /\
+  h_height (f_hdr f) + m_cl (f_msg f) <= height /\
+  h_ts (f_hdr f) + m_cl (f_msg f) * 16000 <= now /\
+  (c_mainnet c = true -> is_transfer (f_msg f) = true -> h_ts (f_hdr f) + Z.max (m_cl (f_msg f)) 205 * 16000 <= now) /\
+  attest_ok AP (f_msg f) (f_chain f).
+Proof.
+  intros c EP HP AP height now mc hd f [(J1 & J2 & J3 & J4 & J5 & J6) [J7 J8]] Hs.
+  apply confirmed_spec in J8; [|exact Hs]. destruct J8 as [K1 K2]. destruct Hs as (_ & Hcl & _).
+  pose proof (hold_ge_level (c_mainnet c) (f_msg f) (proj1 Hcl)) as G.
+  repeat apply conj; auto; try lia. intros Hm Ht. rewrite Hm, hold_mainnet_transfer in K2 by exact Ht. exact K2.
+Qed.
+
+Lemma justified_reobs_meaning : forall c EP HP AP r f,
+  justified c EP HP AP (OReobs r) f -> sane_hdr (f_hdr f) (m_cl (f_msg f)) ->
+  EP (f_ev f) /\ HP (e_block (f_ev f)) (f_hdr f) /\ m_sender (f_msg f) = c_bridge c /\
+  r_status r = Some (Some (e_block (f_ev f))) /\ r_mc r = Some true /\
+  (exists te evs, r_events r = Some evs /\ In te evs /\ t_ev te = f_ev f /\ t_addr te = c_gov c) /\
+  (exists height, r_height r = Some height /\
+     h_height (f_hdr f) + m_cl (f_msg f) <= height /\
+     h_ts (f_hdr f) + m_cl (f_msg f) * 16000 <= r_now r /\
+     (c_mainnet c = true -> is_transfer (f_msg f) = true -> h_ts (f_hdr f) + Z.max (m_cl (f_msg f)) 205 * 16000 <= r_now r)) /\
+  attest_ok AP (f_msg f) (f_chain f).
+Proof.
+  intros c EP HP AP r f [(J1 & J2 & J3 & J4 & J5 & J6) (R1 & R2 & R3 & R4 & R5 & (height & R6 & R7))] Hs.
+  apply confirmed_spec in R7; [|exact Hs]. destruct R7 as [K1 K2]. destruct Hs as (_ & Hcl & _).
+  pose proof (hold_ge_level (c_mainnet c) (f_msg f) (proj1 Hcl)) as G.
+  repeat apply conj; auto. exists height. repeat apply conj; auto; try lia.
+  intros Hm Ht. rewrite Hm, hold_mainnet_transfer in K2 by exact Ht. exact K2.
+Qed.
+
+(* nothing is forwarded by a poll, by the hand-over of a batch, or by a failing height request *)
+Lemma justified_only_tick_reobs : forall c EP HP AP o f, justified c EP HP AP o f ->
+  (exists height now mc hd, o = OTick height now mc hd) \/ (exists r, o = OReobs r).
+Proof.
+  intros c EP HP AP o f [_ J]. destruct o; try destruct J; [left; eauto|right; eauto].
 Qed.
